@@ -73,6 +73,12 @@ Proof.
   - left; eauto.
 Qed.
 
+Lemma bottom_of_cons t l : exists b, bottom_of (t :: l) = Ok b.
+Proof.
+  revert t; induction l as [|u r IH]; intros t; [eexists; reflexivity|].
+  destruct (IH u) as [b E]. exists b. exact E.
+Qed.
+
 (* ---- the per-character step preserves the invariant ---- *)
 Ltac use_flush :=
   match goal with
@@ -83,11 +89,19 @@ Ltac use_flush :=
       [destruct s'; simpl in E1, E2; subst | ]
   end.
 
+Ltac use_bottom :=
+  match goal with
+  | |- context[bottom_of (?t :: ?l)] =>
+      let b := fresh "b" in let E := fresh "E" in
+      destruct (bottom_of_cons t l) as [b E]; rewrite E; clear E
+  end.
+
 Ltac crunch :=
   repeat (cbn -[is_keyword keyword_of_name upper_str py_int undemarcate mem_ascii flush_expand
-                Nat.ltb Nat.eqb Ascii.eqb nonempty str_in] in *;
+                Nat.ltb Nat.eqb Ascii.eqb nonempty str_in bottom_of] in *;
           first
           [ use_flush
+          | use_bottom
           | progress unfold take_attr in *
           | match goal with
             | H : is_keyword ?x = true, H2 : keyword_of_name (upper_str ?x) = None |- _ =>
@@ -111,7 +125,7 @@ Lemma first_rule_good strip sepc s c :
   Inv s -> dcount s = List.length (stack s) -> good (first_rule (rules strip sepc) s c).
 Proof.
   intros HI Hd. destruct s as [segs0 sid0 stype0 stk esc0 sinv0 smeth0 sattr0 skw0 seekre0 cap0
-                               clevel0 copr0 seekcop0 ncmb0 seekanc0 dc].
+                               clevel0 copr0 seekcop0 ncmb0 seekanc0 dc td0].
   unfold Inv in HI. simpl in HI, Hd. subst dc.
   destruct cap0.
   - (* capturing a regex: the stack is non-empty *)
